@@ -119,12 +119,6 @@ def specOf (v : Variant) : HandlerSpec := ⟨v, [], 0, false, false⟩
 example : [c1, c2] ≠ [] := by decide
 example : (specOf .executor).lostClose = false := rfl
 
-/-- `Reach` is inhabited beyond the empty file system: death after `mkdir temp` leaves a temp directory -/
-example : ∃ c, run (initCfg FS.empty .serial {} [c1] (specOf .serial)) [.sav, .sav, .sav, .sav, .sav] = some c ∧
-    Reach [c1] c.fs ∧ c.fs.temp = some [] := by
-  refine ⟨_, rfl, ?_, rfl⟩
-  exact Reach.attempt Reach.empty (by decide) rfl
-
 /-- error kind of `find`, as a decidable value -/
 def findErr (fs : FS) : Option Err :=
   match find fs with
@@ -141,6 +135,11 @@ def twoAttempts (v : Variant) (pr : Proto) (hs : HandlerSpec) (o : RmOrder) (f1 
   let r1 := (attempt FS.empty v pr [c1, c2] hs o f1).1
   let r2 := attempt r1.cfg.fs v pr [c1, c2] hs o f2
   (r2.1.cfg, r2.2)
+
+/-- `Reach` is inhabited beyond the empty file system: everything the driver's scheduler produces is reachable, e.g.
+broken data left behind by an I/O error followed by a death in the middle of its removal -/
+example : Reach [c1, c2] (twoAttempts .serial {} (specOf .serial) .metaFirst (some ⟨9, .exc⟩) (some ⟨4, .dieAfter⟩)).1.fs :=
+  attempt_reach (attempt_reach Reach.empty _ _ _ _) _ _ _ _
 
 /-- a retry heals: serial variant, after an exception that left broken data (final directory with "exception") -/
 theorem retry_heals_serial_example :
